@@ -128,6 +128,7 @@ def run_scenario(sc, chooser=None, seed=0, max_steps=4000):
                     sched.note("ret", ti, "wait", r)
                     if not ds.raw(sig, "_go"):
                         st["viol"].append("C01: wait() returned on thread %d while the flag is false" % ti)
+                        st["viol"].append("C20: thread %d came back from Signal.wait() although nothing had happened (flag false, no go())" % ti)
                 elif op == "go":
                     sched.note("call", ti, "go")
                     sig.go()
